@@ -1,4 +1,95 @@
 import Driver.Common
+import AnyioModel.Cache.Lru
 
-/-- placeholder driver: replies `unimplemented` to every request -/
-def main : IO Unit := Driver.serve () (fun s _ => (s, "unimplemented"))
+/-!
+Line protocol of the `lru_cache` model (exe `md_lru`):
+
+  new <maxsize|-> <ttl|-> <ac 0|1>     -> ok
+  call c k pre | step c | wret c v | wraise c | fc c | mc c | sc c | tick n
+      -> susp | ret v | raised | cancelled | internalerror | env | DISABLED
+  obs -> hits=.. misses=.. currsize=.. retained=.. order=k1,k2,..   (completed keys, oldest first)
+  obsx -> same plus all=k1,k2* (every key, `*` = placeholder), inflight=.. and the branch tag
+
+An `Out.cont` (the model's split of `return await self(...)`) is followed by `step c` at once:
+the reply is that of the whole real segment.
+-/
+namespace Driver.Lru
+open AnyioModel.Cache.Lru
+
+def outStr : Out → String
+  | .susp => "susp"
+  | .cont => "cont"
+  | .ret v => s!"ret {v}"
+  | .raised => "raised"
+  | .cancelled => "cancelled"
+  | .internalError => "internalerror"
+  | .env => "env"
+
+def optNat? (s : String) : Option (Option Nat) :=
+  if s = "-" then some none else s.toNat?.map some
+
+def parseEv : List String → Option Ev
+  | ["call", c, k, pre] => do some (.call (← c.toNat?) (← k.toNat?) (← Driver.parseBool pre))
+  | ["step", c] => do some (.step (← c.toNat?))
+  | ["wret", c, v] => do some (.wrappedReturns (← c.toNat?) (← v.toNat?))
+  | ["wraise", c] => do some (.wrappedRaises (← c.toNat?))
+  | ["fc", c] => do some (.fc (← c.toNat?))
+  | ["mc", c] => do some (.mc (← c.toNat?))
+  | ["sc", c] => do some (.sc (← c.toNat?))
+  | ["tick", n] => do some (.tick (← n.toNat?))
+  | _ => none
+
+def evTask : Ev → Option Nat
+  | .call c _ _ | .step c | .wrappedReturns c _ | .wrappedRaises c => some c
+  | _ => none
+
+def completedKeys (d : Dict) : List Nat :=
+  (d.filter (fun p => p.2.isValue)).map Prod.fst
+
+def obsStr (s : State) : String :=
+  let ks := completedKeys s.dict
+  s!"hits={s.hits} misses={s.misses} currsize={s.currsize} retained={ks.length} " ++
+  "order=" ++ (if ks.isEmpty then "-" else ",".intercalate (ks.map toString))
+
+def allStr (s : State) : String :=
+  if s.dict.isEmpty then "-" else
+  ",".intercalate (s.dict.map (fun p => toString p.1 ++ (if p.2.isValue then "" else "*")))
+
+/-- run `e`, then finish the segment while the model says `cont` (at most twice: a restarted
+call either suspends, returns or fails) -/
+def runSeg (s : State) (e : Ev) : Option (State × Out) :=
+  match step s e with
+  | none => none
+  | some (s1, .cont) =>
+    match evTask e with
+    | none => some (s1, .cont)
+    | some c =>
+      match step s1 (.step c) with
+      | none => some (s1, .cont)
+      | some (s2, .cont) =>
+        match step s2 (.step c) with
+        | none => some (s2, .cont)
+        | some r => some r
+      | some r => some r
+  | some r => some r
+
+def handle (s : State) : List String → State × String
+  | ["new", m, t, a] =>
+    match optNat? m, optNat? t, Driver.parseBool a with
+    | some m, some t, some a => (init { maxsize := m, ttl := t, ac := a }, "ok")
+    | _, _, _ => (s, "bad-op")
+  | ["obs"] => (s, obsStr s)
+  | ["obsx"] => (s, obsStr s ++ " all=" ++ allStr s)
+  | ws =>
+    match parseEv ws with
+    | none => (s, "bad-op")
+    | some e =>
+      match runSeg s e with
+      | none => (s, "DISABLED")
+      | some (s', o) => (s', outStr o)
+
+end Driver.Lru
+
+def main : IO Unit :=
+  Driver.serve (AnyioModel.Cache.Lru.init { maxsize := none, ttl := none, ac := false })
+    Driver.Lru.handle
